@@ -58,7 +58,7 @@ def generate(rng, tier):
     for j in range(nk):
         ln = f"k{j}"
         rn = ln if rng.random() < 0.55 else f"r{j}"
-        by.append(ln if ln == rn else (ln, rn))
+        by.append(ln if ln == rn else rng.choice([(ln, rn), [ln, rn]]))      # a renamed pair is given as a tuple or as a list
         lk.append(ln); rk.append(rn)
     left = [dict({"_ltag_": i, "lv": rng.choice(["p", "q"])}, **{k: rng.choice(pools[j]) for j, k in enumerate(lk)}) for i in range(nl)]
     right = [dict({"_rtag_": i}, **{k: (rng.choice([7, 8]) if disjoint and j == 0 else rng.choice(pools[j])) for j, k in enumerate(rk)}) for i in range(nr)]
@@ -66,6 +66,9 @@ def generate(rng, tier):
         if rng.random() < 0.7: it["rv"] = rng.choice([10, 20, None])
         if rng.random() < 0.3: it["rw"] = rng.choice(["m", [1]])
     case = {"op": op, "left": left, "right": right, "by": by}
+    if op != "full_join" and rng.random() < 0.12:
+        # a right list of bare keys (used as a filter): its items have nothing to merge in
+        case["right"] = [{k: it[k] for k in rk} for it in right]
     if rng.random() < 0.2:
         # lists holding the same dict OBJECT more than once (data * 2, data + data)
         case["alias"] = rng.choice(["left", "right", "both"])
@@ -215,5 +218,12 @@ def execute(case):
             if a is None and b is None:
                 res.violate("full_join:item-from-nowhere", f"item {x}; {ctx}")
                 break
+            if a is None and isinstance(b, int) and b < len(right):
+                # an item that only the right list contributes carries its key values under the LEFT names, and its other entries unchanged
+                exp_x = {k: v for k, v in right[b].items() if k not in by2}
+                exp_x.update({k1: right[b][k2] for k1, k2 in zip(by1, by2)})
+                if any(k not in x or x[k] != v for k, v in exp_x.items()) or any(k2 in x for k1, k2 in zip(by1, by2) if k1 != k2):
+                    res.violate("full_join:right-only-item-wrong", f"item {x} expected entries {exp_x} (keys under the left names); {ctx}")
+                    break
     res.count("joins-compared")
     return res.dict()
